@@ -19,7 +19,7 @@ def _shard(name, shard, nshards, tier, seed):
     import pytenet as ptn
     c = Corr(name)
     rng = np.random.default_rng([seed, shard, 13, len(name)])
-    n = (500 if tier == 'quick' else 5000) // nshards + 1
+    n = (500 if tier == 'quick' else 25000) // nshards + 1
     ops, impls, sigs = [], [], []
     for _ in range(n):
         try:
